@@ -119,7 +119,13 @@ def saturation(rng, n_cases, res):
             v = rng.choice([1, -1]) * rng.choice([2.0 ** 53, 2.0 ** 62, 2.0 ** 63, 2.0 ** 64, 2.0 ** 65, 1e30, 1e100, 1.7e308, 2.0 ** 1023, float(hi) / 2.0 ** nf * 1.5 + 1, rng.uniform(1, 2) * 2.0 ** rng.randint(0, 1023)])
         else:
             v = rng.choice([1, -1]) * rng.choice([2 ** 62, 2 ** 63, 2 ** 63 - 1, 2 ** 64, 2 ** 64 - 1, 2 ** 65, 2 ** 100, 2 ** 1000, (hi >> max(nf, 0)) + 1 + rng.getrandbits(rng.randint(1, 200))])
-        gen.append({'s': s, 'nw': nw, 'nf': nf, 'r': rng.choice(RMODES), 'v': v, 'route': rng.choice(['ctor', 'call', 'set_val'])})
+        c = {'s': s, 'nw': nw, 'nf': nf, 'r': rng.choice(RMODES), 'v': v, 'route': rng.choice(['ctor', 'call', 'set_val'])}
+        # the same integer held by a NumPy uint64 / int64 scalar or array, or read from another fixed-point object (x() of an
+        # unsigned integer object is a uint64 array): the library's own outputs are inputs too
+        if isinstance(v, int) and rng.random() < 0.4:
+            if 0 <= v < 2**64: c['carrier'] = rng.choice(['np.uint64', 'arr.uint64', 'fxp.getval'])
+            elif -2**63 <= v < 0: c['carrier'] = rng.choice(['np.int64', 'arr.int64'])
+        gen.append(c)
     run_sat_cases(gen, res)
 
 def run_sat_cases(gen, res):
@@ -127,11 +133,18 @@ def run_sat_cases(gen, res):
     cases = []; reqs = []
     for c in gen:
         c = dict(c); s, nw, nf, v = c['s'], c['nw'], c['nf'], c['v']
+        import numpy as np
+        car = c.get('carrier'); v_in = v
+        if car == 'np.uint64': v_in = np.uint64(v)
+        elif car == 'arr.uint64': v_in = np.array([v], dtype=np.uint64)
+        elif car == 'np.int64': v_in = np.int64(v)
+        elif car == 'arr.int64': v_in = np.array([v], dtype=np.int64)
+        elif car == 'fxp.getval': v_in = fx.Fxp(v, False, 64, 0)()
         try:
-            if c['route'] == 'ctor': x = fx.Fxp(v, s, nw, nf, rounding=c['r'], overflow='saturate')
+            if c['route'] == 'ctor': x = fx.Fxp(v_in, s, nw, nf, rounding=c['r'], overflow='saturate')
             else:
                 x = fx.Fxp(None, s, nw, nf, rounding=c['r'], overflow='saturate')
-                (x if c['route'] == 'call' else x.set_val)(v)
+                (x if c['route'] == 'call' else x.set_val)(v_in)
             c['_got'] = (lib.codes_of(x)[0], lib.status3(x)[:2])
         except Exception as e:
             res.fail({k: (repr(t) if isinstance(t, float) else t) for k, t in c.items()}, 'C02: storing an out-of-range value under saturate raised %s' % lib.exc_name(e), got=str(e)[:200]); continue
